@@ -21,7 +21,8 @@ class Loader:
         self.registry = {}
         self.patches = patches or {}
         self.sources = {}
-        self.builtin_overrides = dict(open=symlibs.mem_open)
+        from .ordset import OrderSet
+        self.builtin_overrides = dict(open=symlibs.mem_open, set=OrderSet)
         self.builtin_overrides.update(builtin_overrides or {})
         npm = types.ModuleType("numpy")
         npm.__dict__.update({k: v for k, v in symnp.__dict__.items() if not k.startswith("__")})
